@@ -265,6 +265,7 @@ struct St {
 	int n_in_log = 0;
 	bool fini_returned = false, in_fini = false, app_done = false, done = false;
 	int cur_op = -1;
+	int gen_ctr = 0;
 	int first_dyn_task = 1;          // tasks with id >= this were created by libqb (the logging worker)
 	// bursts
 	uint32_t burst_gen = 0; int burst_n[NP] = {}; int burst_size = 0, burst_cs = 0; uint32_t burst_seen[NP] = {}; int burst_left = 0;
@@ -452,7 +453,7 @@ static void logger_cb(int32_t pos, struct qb_log_callsite *cs, struct timespec *
 			VFAIL("duplicate-delivery", "qb_log_thread_log_write", "message #%u of producer %d, written synchronously to target %d, was written again by the logging thread", serial, p, t);
 		count(p_late_route);
 		goto order_check;
-	} else if ((m.st[t] == ST_MUST || m.st[t] == ST_OPT) && !via_worker && m.st[t] == ST_MUST) {
+	} else if (m.st[t] == ST_MUST && !via_worker) {
 		VFAIL("unexpected-delivery", "qb_log_real_va_", "message #%u of producer %d was written synchronously to target %d, which is in threaded mode with the thread running", serial, p, t);
 	}
 	if (m.ndeliv[t] >= 1)
@@ -699,10 +700,8 @@ static void app_op(const Op &op)
 		if (pos < QB_LOG_TARGET_DYNAMIC_START || pos >= NSLOT || G.pos2t[pos] >= 0)
 			VFAIL("bad-return", "qb_log_custom_open", "qb_log_custom_open returned %d", pos);
 		T = Tgt();
-		T.open = true; T.pos = pos; T.gen = ++G.T[t].gen + (int)G.msgs.size() * 0;
-		T.gen = (int)(G.a.cycle * 1000 + op.a[5] % 1000) + (int)(++G.burst_seen[0] * 0);
-		static int gen_ctr; T.gen = ++gen_ctr;
-		T.route_epoch = (uint32_t)gen_ctr << 8;
+		T.open = true; T.pos = pos; T.gen = ++G.gen_ctr;
+		T.route_epoch = (uint32_t)G.gen_ctr << 12;
 		G.pos2t[pos] = t;
 		G.a.T[t].open = true; G.a.T[t].enabled = false; G.a.T[t].thr = false; G.a.T[t].pos = pos; G.a.slot_used[pos] = true;
 		if (G.a.slot_thr[pos]) count(p_stale_flag);
